@@ -180,7 +180,17 @@ func (s *grpcServer) maybeInline(ctx context.Context, inline bool, slice *[]byte
 		}
 
 		found, _ := s.cache.Contains(ctx, cache.CAS, (*digest).Hash, (*digest).SizeBytes)
-		if !found {
+		if found {
+			// Only drop the inlined data if it is the blob that the digest
+			// refers to (ActionResults uploaded via HTTP are not checked
+			// for this). Otherwise preserve the inlined data.
+			hash := sha256.Sum256(*slice)
+			if int64(len(*slice)) != (*digest).SizeBytes ||
+				hex.EncodeToString(hash[:]) != (*digest).Hash {
+				*inlinedSoFar += int64(len(*slice))
+				return nil
+			}
+		} else {
 			err := s.cache.Put(ctx, cache.CAS, (*digest).Hash, (*digest).SizeBytes,
 				bytes.NewReader(*slice))
 			if err == nil || err == io.EOF {
